@@ -71,6 +71,29 @@ def scoping_program(rng, depth=0, names=None, in_fn=False):
     return "\n".join(lines)
 
 
+def leak_matrix():
+    """declarations of every kind (variable, named function, function-valued variable, parameter) in inner scopes of
+    every kind (bare block, als/anders arm, loop body, function body; with and without another `stel` in the same
+    block) must neither stay visible after the scope ends nor disturb an outer declaration of the same name"""
+    decls = [("stel x = 2;", "x"), ("functie x() { 2 };", "x()"), ("stel x = functie() { 2 };", "x()"), ("functie x(x) { x }; x(2);", "x(2)")]
+    outer = {"x": "stel x = 1;", "x()": "functie x() { 1 };", "x(2)": "functie x(q) { 1 };"}
+    scopes = ["{ %s };", "als ja { %s };", "als nee { 0 } anders { %s };", "stel once = 0; zolang once < 1 { once += 1; %s };",
+              "functie holder() { %s 0 }; holder();", "{ { %s }; };", "als ja { als ja { %s } };"]
+    out = []
+    for d, use in decls:
+        for sc in scopes:
+            for extra in ["", "stel other = 5; ", "other_f(); " ]:
+                pre = "functie other_f() { 0 };\n"
+                inner = extra + d
+                # (1) the name does not exist after the scope: reference error, before any output
+                out.append(("leak", pre + "print(1);\n" + (sc % inner) + "\n" + use))
+                # (2) an outer declaration of the same name is undisturbed
+                out.append(("shadow-kind", pre + outer[use] + "\n" + (sc % inner) + "\n" + use))
+                # (3) ... also when the inner scope uses its own declaration first
+                out.append(("shadow-kind", pre + outer[use] + "\n" + (sc % (inner + " " + use + ";")) + "\n[" + use + "]"))
+    return out
+
+
 def rename(src, old, new):
     return re.sub(r"(?<![\w])%s(?![\w])" % re.escape(old), new, src)
 
@@ -92,6 +115,7 @@ def run(res, tier, rng, table_diffs=()):
     ]
     for d in directed:
         cases.append(("directed", d))
+    cases += leak_matrix()
     rs = run_cases(res, "C09", cases)
     # metamorphic, on the implementation alone
     meta = []
